@@ -100,7 +100,7 @@ def check_pool_mutations(ctx, prog, pool, r, fam_props):
                 ok = True
             elif nm in ('reserve', 'reserve_exact'):
                 ok = True
-            elif f in r['grow'] and ((vf == r['nodes'] and nm in ('resize', 'resize_with')) or (vf == r['free'] and nm == 'extend')):
+            elif f in r['grow'] and ((vf == r['nodes'] and nm in ('resize', 'resize_with')) or (vf == r['free'] and nm in ('extend', 'push'))):
                 ok = True        # form checked by grow-range
             if not ok:
                 ctx.add('POOL', f, 'pool-mutation(%s on %s)' % (nm, '.'.join(vf)), 'violation',
@@ -629,6 +629,65 @@ def check_alloc_fn(ctx, prog, a, r):
                 ('growth is not guarded by "free list is empty"' if not ok else 'growth amount %s is not bounded by the current size' % show(amount, 3)), PROPS_POOL, line)
 
 
+def unover(v):
+    v = strip(v)
+    if v.kind == 'load' and v.fields() == ('0',):
+        v = strip(v.args[0])
+    return v
+
+
+def counted_push_bounds(prog, b, push):
+    """`let mut i = A; while i > B { i -= 1; push(i) }`  or  `let mut i = B; while i < A { push(i); i += 1 }`:
+    (B, A) = the half-open interval of values pushed, else None"""
+    from rules.gate import edge_truth
+    if push.callee_name() != 'push' or len(push.args) != 2:
+        return None
+    loops = b.cfg.loops()
+    hs = [h for h, body in loops.items() if push.point[0] in body]
+    if len(hs) != 1:
+        return None
+    h = hs[0]
+    body = loops[h]
+    val = unover(push.args[1])
+    for I in b.phis.get(h, {}).values():
+        if 'same_as' in I.extra:
+            continue
+        inits = [strip(a) for a, p in zip(I.args, I.extra['preds']) if p not in body]
+        steps = [unover(a) for a, p in zip(I.args, I.extra['preds']) if p in body]
+        if len(inits) != 1 or len(steps) != 1:
+            continue
+        st = steps[0]
+        if st.kind != 'bin' or unover(st.args[1]) is not I or not strip(st.args[2]).is_const(1):
+            continue
+        op = st.args[0].replace('WithOverflow', '').replace('Unchecked', '')
+        # the guard at the header
+        d = b.switch_discr.get(h)
+        if d is None:
+            continue
+        d = strip(d)
+        if d.kind != 'bin':
+            continue
+        x, y = strip(d.args[1]), strip(d.args[2])
+        t = b.mir['blocks'][h]['term']
+        stay = None
+        for succ in b.cfg.succ[h]:
+            tr = edge_truth(t, succ)
+            if tr is not None and succ in body:
+                stay = tr
+        if stay is None:
+            continue
+        rel = d.args[0]
+        if not stay:
+            rel = {'Gt': 'Le', 'Ge': 'Lt', 'Lt': 'Ge', 'Le': 'Gt', 'Eq': 'Ne', 'Ne': 'Eq'}.get(rel)
+        if op == 'Sub' and val is st and ((rel == 'Gt' and x is I) or (rel == 'Lt' and y is I)):
+            bound = y if x is I else x
+            return (strip(bound), inits[0])          # pushes A-1 .. B  =  [B, A)
+        if op == 'Add' and val is I and ((rel == 'Lt' and x is I) or (rel == 'Gt' and y is I)):
+            bound = y if x is I else x
+            return (inits[0], strip(bound))          # pushes B .. A-1
+    return None
+
+
 def check_grow(ctx, prog, g, r):
     """buffer extended by `length` nodes, free list by exactly old_len .. old_len + length"""
     b = g.body
@@ -658,10 +717,11 @@ def check_grow(ctx, prog, g, r):
         for x in walk(ex.args[1]):
             if x.kind == 'agg' and x.extra.get('path', '').endswith('Range') and len(x.args) == 2:
                 rng = x
-        if rng is None:
+        bounds = (strip(rng.args[0]), strip(rng.args[1])) if rng is not None else counted_push_bounds(prog, b, ex)
+        if bounds is None:
             problems.append('free list is not extended by an index range')
         else:
-            lo, hi = strip(rng.args[0]), strip(rng.args[1])
+            lo, hi = bounds
             lo_ok = lo.kind == 'call' and lo.callee_name() == 'len' and vec_field_of(prog, lo.args[0]) == r['nodes'] and (lo.point < rz.point)
             hi2 = hi
             if hi2.kind == 'load' and hi2.fields() == ('0',):
@@ -677,7 +737,7 @@ def check_grow(ctx, prog, g, r):
             if not hi_ok:
                 problems.append('range of new free indices does not end at old length + length')
             # adapters other than rev change the set of indices
-            for x in walk(ex.args[1]):
+            for x in (walk(ex.args[1]) if rng is not None else []):
                 if x.kind == 'call' and x.callee_name() not in ('rev', 'into_iter') and any(y is rng for y in walk(x)):
                     problems.append('index range is passed through %s before extending the free list' % x.callee_name())
     if problems:
